@@ -877,7 +877,10 @@ func (c *Ctx) LSPDocumentStore(ob *core.Obligation) {
 		}
 		return lk
 	}
+	// helper -> index of the parameter the key comes from, and the field path from that
+	// parameter to the key (empty when the parameter is the key)
 	helpers := map[*ssa.Function]int{}
+	helperPath := map[*ssa.Function]string{}
 	for _, fn := range c.P.ModuleFunctions() {
 		if relOfFn(fn) != "internal/lsp" || fn == upd {
 			continue
@@ -888,8 +891,8 @@ func (c *Ctx) LSPDocumentStore(ob *core.Obligation) {
 				if lk == nil {
 					continue
 				}
-				p, ok := lk.Index.(*ssa.Parameter)
-				if !ok {
+				p := paramRoot(lk.Index, fn)
+				if p == nil {
 					continue
 				}
 				// every return hands back the value found (or reports "not found")
@@ -915,6 +918,7 @@ func (c *Ctx) LSPDocumentStore(ob *core.Obligation) {
 					for i, q := range fn.Params {
 						if q == p {
 							helpers[fn] = i
+							helperPath[fn] = fieldPath(lk.Index)
 							c.Touch(fn)
 						}
 					}
@@ -933,11 +937,13 @@ func (c *Ctx) LSPDocumentStore(ob *core.Obligation) {
 			for _, in := range b.Instrs {
 				var index ssa.Value
 				var tuple ssa.Value
+				rest := ""
 				if lk := isDocLookup(in); lk != nil {
 					index, tuple = lk.Index, lk
 				} else if call, ok := in.(*ssa.Call); ok {
 					if k, isH := helpers[call.Call.StaticCallee()]; isH && call.Call.StaticCallee() != nil {
 						index, tuple = call.Call.Args[k], call
+						rest = helperPath[call.Call.StaticCallee()]
 					}
 				}
 				if tuple == nil {
@@ -946,7 +952,11 @@ func (c *Ctx) LSPDocumentStore(ob *core.Obligation) {
 				c.Touch(fn)
 				key := "lsp-store:query:" + core.SSAName(fn)
 				p := paramRoot(index, fn)
-				if p == nil || !strings.HasSuffix(fieldPath(index), "TextDocument.URI") {
+				keyPath := fieldPath(index)
+				if rest != "" {
+					keyPath = strings.TrimPrefix(keyPath+"."+rest, ".")
+				}
+				if p == nil || !strings.HasSuffix(keyPath, "TextDocument.URI") {
 					ob.Fail(key, c.P.Pos(in.Pos()), "the document is not looked up under the request's own TextDocument.URI")
 					continue
 				}
@@ -998,14 +1008,33 @@ func (c *Ctx) LSPDocumentStore(ob *core.Obligation) {
 }
 
 func allocHoldsLookup(al *ssa.Alloc, lk ssa.Value) bool {
-	if al.Referrers() == nil {
-		return false
-	}
-	for _, r := range *al.Referrers() {
-		if st, ok := r.(*ssa.Store); ok && st.Addr == al {
-			if ex, ok := st.Val.(*ssa.Extract); ok && ex.Tuple == lk && ex.Index == 0 {
-				return true
+	for i := 0; i < 4 && al != nil; i++ {
+		if al.Referrers() == nil {
+			return false
+		}
+		n, hit := 0, 0
+		var only *ssa.Store
+		for _, r := range *al.Referrers() {
+			if st, ok := r.(*ssa.Store); ok && st.Addr == al {
+				n++
+				only = st
+				if ex, ok := st.Val.(*ssa.Extract); ok && ex.Tuple == lk && ex.Index == 0 {
+					hit++
+				}
 			}
+		}
+		if n > 0 && hit == n {
+			return true
+		}
+		// a local copy of part of the document found (checkResult := doc.CheckResult)
+		if n != 1 {
+			return false
+		}
+		switch only.Val.(type) {
+		case *ssa.UnOp, *ssa.Field:
+			al = rootAlloc(only.Val)
+		default:
+			return false
 		}
 	}
 	return false
